@@ -108,6 +108,12 @@ CHECKS = {
         text="PROVED (Lean kernel, no axioms): if every hop preserves the interface on a set E and E is closed under hops, then every chain of any length preserves it and any two chains commute. "
              "BOUNDED only: the hypotheses — every sequence of length <= 3 (sampled to 5) over {class, pydantic, function, argparse, docstring-rest} from the common-domain slice of IR(n), comparing names, order, types and defaults with the start. Unbounded in chain length, bounded in the start set. Three known-finding classes (starts with a missing, None or empty-string default).",
         note="The Lean statement is about an abstract hop function; that the real hops satisfy H1/H2 is only checked within the bound."),
+    "C04": dict(
+        category="other", design_ref="DESIGN.md §5 C04",
+        technique="bounded run-time contract `exposes(exec(to_code(emit(ir))), ir)` with CPython / inspect.signature / argparse as the oracle; only three shape contracts of the emitters are discharged deductively (rule engine)",
+        text="NOT PROVED: the specification of this property is the interpreter itself, so no contract within reach of the deductive engine expresses it. Discharged deductively (rule engine): each of the class, function and argparse emitters builds exactly one element per entry of the parameter mapping, in order. "
+             "BOUNDED — the only place the property is decided: the emitted source is compiled, executed and introspected (class attributes and annotations, inspect.signature, a populated ArgumentParser incl. choices/default/required/help and parse_args) over the executable slice of IR(n) x 3 emitters x 3 styles. One known finding (int Literal choices without type=int).",
+        note="Claimed as a bounded stand-in, not as a proof; listed here rather than under not_applicable because the stand-in is labelled and the shape contracts are real obligations."),
 }
 
 NA_REASON = "check not built yet (work in progress; see DESIGN.md for the plan)"
